@@ -188,7 +188,7 @@ func (engine) Body(r *simdrv.Run) {
 	for t := range plans {
 		n := 3 + r.Cfg(9)
 		for i := 0; i < n; i++ {
-			op := planOp{kind: []string{"inst", "inst", "add", "add", "add", "regcb", "unregcb", "span", "span", "gettracer"}[r.Cfg(10)], meter: r.Cfg(2), name: r.Cfg(3), ikind: r.Cfg(len(instKinds)), held: r.Cfg(3) == 0}
+			op := planOp{kind: []string{"inst", "inst", "add", "add", "add", "regcb", "unregcb", "span", "span", "gettracer", "inject"}[r.Cfg(11)], meter: r.Cfg(2), name: r.Cfg(3), ikind: r.Cfg(len(instKinds)), held: r.Cfg(3) == 0}
 			if r.Cfg(6) == 0 {
 				op.sleep = time.Millisecond
 			}
@@ -322,6 +322,7 @@ func (engine) Body(r *simdrv.Run) {
 			var myTracers []*tracerHandle
 			// provider objects obtained once, up front (typically before the SDK is installed)
 			tp0 := otel.GetTracerProvider()
+			prop0 := otel.GetTextMapPropagator()
 			heldMP[name] = otel.GetMeterProvider()
 			for _, op := range plan {
 				if op.sleep > 0 {
@@ -376,6 +377,13 @@ func (engine) Body(r *simdrv.Run) {
 							break
 						}
 					}
+				case "inject":
+					// the propagator object obtained before installation is used while installation may be
+					// under way (race oracle; after seeded change C16-h)
+					carrier := propagation.MapCarrier{}
+					prop0.Inject(context.Background(), carrier)
+					_ = prop0.Extract(context.Background(), carrier)
+					_ = prop0.Fields()
 				case "gettracer":
 					th := &tracerHandle{name: fmt.Sprintf("t%d", op.meter), inv: sim.Stamp()}
 					if op.held {
